@@ -177,3 +177,35 @@ Proof.
     intro Z. unfold Qeq, inject_Z in Z. simpl in Z. lia.
   - now rewrite map_length, seq_length.
 Qed.
+
+(* ------------------------------------------------------------------ compute_rdf_t *)
+Lemma qsumr_ext {A} (f g : A -> Q) l :
+  (forall x, In x l -> f x == g x) -> qsumr (map f l) == qsumr (map g l).
+Proof.
+  induction l as [|x r IH]; intros H; simpl; [reflexivity|].
+  rewrite (H x (or_introl eq_refl)), IH; [reflexivity|]. intros y Hy. apply H. right; exact Hy.
+Qed.
+
+Lemma qsumr_scal {A} (k : Q) (f : A -> Q) l : qsumr (map (fun x => k * f x) l) == k * qsumr (map f l).
+Proof. induction l as [|x r IH]; simpl; [ring|]. rewrite IH. ring. Qed.
+
+(* the chunked, weighted computation of compute_rdf_t equals the single normalisation
+   total count / ((total number of pairs / period_length) * sum(1/V) * V_shell), whatever the chunk sizes *)
+Theorem rdf_t_chunks ncp period siv v cs :
+  (forall cn, In cn cs -> ~ snd cn == 0) -> ~ ncp == 0 -> ~ period == 0 -> ~ siv == 0 -> ~ v == 0 ->
+  ~ qsumr (map snd cs) == 0 ->
+  chunk_avg ncp period siv v cs == qsumr (map fst cs) / (qsumr (map snd cs) / period * siv * v).
+Proof.
+  intros Hn Hc Hp Hs Hv Ht. unfold chunk_avg. fold (qsumr (map (fun cn : Q * Q => snd cn / ncp) cs)).
+  fold (qsumr (map (fun cn : Q * Q => snd cn / ncp * (fst cn / (snd cn / period * siv * v))) cs)).
+  rewrite (qsumr_ext (fun cn : Q * Q => snd cn / ncp * (fst cn / (snd cn / period * siv * v)))
+                     (fun cn => (period / (ncp * siv * v)) * fst cn)).
+  2:{ intros cn Hin. specialize (Hn cn Hin). field. repeat split; assumption. }
+  rewrite (qsumr_ext (fun cn : Q * Q => snd cn / ncp) (fun cn => (1 / ncp) * snd cn)).
+  2:{ intros cn _. field. exact Hc. }
+  rewrite !qsumr_scal. field. repeat split; assumption.
+Qed.
+
+(* the histogram of a concatenation is the sum of the histograms (what makes the chunk counts add up) *)
+Theorem count_bin_app bs xs ys k : count_bin bs (xs ++ ys) k = (count_bin bs xs k + count_bin bs ys k)%nat.
+Proof. unfold count_bin. now rewrite filter_app, app_length. Qed.
